@@ -76,19 +76,19 @@ class Carrier(BaseEvent):
 _ints = st.integers(-5, 5)
 _txt = st.text(alphabet='abcxyz', max_size=3)
 TYPES: dict[str, tuple] = {
-    'int': (int, TInt, _ints, st.sampled_from(['12', 3.0, True]), st.sampled_from(['zz', [1], {'a': 1}, 1.5, b'q'])),
-    'str': (str, TStr, _txt, None, st.sampled_from([1, [1], {'a': 1}, 2.5])),
+    'int': (int, TInt, _ints, st.sampled_from(['12', 3.0, True]), st.sampled_from(['zz', [1], {'a': 1}, 1.5, b'q', '', [], {}])),
+    'str': (str, TStr, _txt, None, st.sampled_from([1, [1], {'a': 1}, 2.5, 0, [], {}])),
     'bool': (bool, None, st.booleans(), st.sampled_from([1, 0, 'true', 'no']), st.sampled_from(['zz', [1], 7, {'a': 1}])),
     'float': (float, None, st.sampled_from([0.5, -1.25, 2.0]), st.sampled_from([3, '1.5']), st.sampled_from(['zz', [1], {'a': 1}])),
     'bytes': (bytes, None, st.sampled_from([b'', b'ab']), st.sampled_from(['ab']), st.sampled_from([1, [1], {'a': 1}])),
-    'list[int]': (list[int], TListInt, st.lists(st.integers(0, 3), max_size=3), st.sampled_from([(1, 2), ['1', 2]]), st.sampled_from(['zz', 5, {'a': 1}, ['q']])),
-    'dict[str,int]': (dict[str, int], TDict, st.dictionaries(st.sampled_from('abc'), st.integers(0, 3), max_size=3), st.sampled_from([{'a': '1'}]), st.sampled_from(['zz', 5, [1], {'a': 'q'}])),
+    'list[int]': (list[int], TListInt, st.lists(st.integers(0, 3), max_size=3), st.sampled_from([(1, 2), ['1', 2]]), st.sampled_from(['zz', 5, {'a': 1}, ['q'], '', 0, {}])),
+    'dict[str,int]': (dict[str, int], TDict, st.dictionaries(st.sampled_from('abc'), st.integers(0, 3), max_size=3), st.sampled_from([{'a': '1'}]), st.sampled_from(['zz', 5, [1], {'a': 'q'}, '', 0, []])),
     'tuple[int,str]': (tuple[int, str], None, st.tuples(st.integers(0, 3), _txt), st.sampled_from([[1, 'a']]), st.sampled_from(['zz', 5, [1], (1, 2, 3)])),
     'int|None': (int | None, TOptInt, _ints, st.sampled_from(['3']), st.sampled_from(['zz', [1]])),
     'Optional[str]': (Optional[str], None, _txt, None, st.sampled_from([[1], {'a': 1}, 5])),
-    'Union[int,str]': (Union[int, str], TUnion, st.one_of(st.integers(0, 3), _txt), None, st.sampled_from([[1], {'a': 1}, 1.5])),
+    'Union[int,str]': (Union[int, str], TUnion, st.one_of(st.integers(0, 3), _txt), None, st.sampled_from([[1], {'a': 1}, 1.5, [], {}])),
     "Literal['a','b']": (Literal['a', 'b'], TLit, st.sampled_from(['a', 'b']), None, st.sampled_from(['c', 1, [1]])),
-    'M': (M, TM, st.builds(M, a=st.integers(0, 3), b=_txt), st.sampled_from([{'a': 1}, {'a': '2', 'b': 'q'}]), st.sampled_from(['zz', 5, {'b': 'q'}, [1]])),
+    'M': (M, TM, st.builds(M, a=st.integers(0, 3), b=_txt), st.sampled_from([{'a': 1}, {'a': '2', 'b': 'q'}]), st.sampled_from(['zz', 5, {'b': 'q'}, [1], {}, '', 0])),
     'list[M]': (list[M], None, st.lists(st.builds(M, a=st.integers(0, 3)), max_size=2), st.sampled_from([[{'a': 1}]]), st.sampled_from(['zz', 5, [{'b': 1}], {'a': 1}])),
     'dict[str,list[int]]': (dict[str, list[int]], None, st.dictionaries(st.sampled_from('ab'), st.lists(st.integers(0, 2), max_size=2), max_size=2), None, st.sampled_from(['zz', {'a': 1}, [1], {'a': ['q']}])),
     'none': (None, TNone, st.one_of(st.integers(0, 3), _txt, st.lists(st.integers(0, 2), max_size=2), st.dictionaries(st.sampled_from('ab'), st.integers(0, 2), max_size=2), st.sampled_from([1.5, b'x', (1, 2)])), None, None),
